@@ -2,6 +2,7 @@ package main
 
 import (
 	"fmt"
+	"go/token"
 	"regexp"
 	"strings"
 
@@ -242,6 +243,48 @@ func runC13(c *Ctx) {
 	ruleFillShape(c)
 	ruleFillValue(c)
 	ruleRecipientsInOrder(c)
+	// BDAT LAST in LMTP mode: once the delivery result has been received, every reply is one of the per-recipient
+	// replies (also after a backend panic: errPanic is given to the recipients without a status, not sent once)
+	R.Rule("R-lmtp-last-only-per-recipient", "E2 never-after under hypothesis", "in LMTP mode no reply is written between receiving the BDAT delivery result and the end of handleBdat except inside the loop over the accepted recipients", 1)
+	if f0 := c.A.Func("(*Conn).handleBdat"); f0 != nil {
+		nRecv := 0
+		for _, f := range c.withHelpers(f0) {
+			f := f
+			loops := findLoops(f)
+			inRc := func(b *ssa.BasicBlock) bool {
+				for _, li := range loops {
+					if li.overRc && li.blocks[b] {
+						return true
+					}
+				}
+				return false
+			}
+			allInstrs(f, func(in ssa.Instruction) {
+				u, ok := in.(*ssa.UnOp)
+				if !ok || u.Op != token.ARROW || describe(u.X) != "Conn.dataResult" {
+					return
+				}
+				nRecv++
+				v := RunPend(f, PendRule{
+					Trig: func(x ssa.Instruction) bool { return x == in },
+					Forbid: func(x ssa.Instruction) bool {
+						if _, isDefer := x.(*ssa.Defer); isDefer || x == in {
+							return false
+						}
+						return s.InstrMay(x)["reply"] && !inRc(x.Block())
+					},
+					SkipEdge: c.F.SkipUnder(`Server.LMTP == true`),
+					PhiOK:    c.F.PhiFeasible(`Server.LMTP == true`),
+				})
+				d := ""
+				if len(v) > 0 {
+					d = fmt.Sprintf("in LMTP mode the reply at %s is written after the delivery result was received, outside the per-recipient loop: the client gets a reply that names no recipient instead of one per accepted RCPT", c.P.InstrPos(v[0].At))
+				}
+				R.Ob(c.siteKey(in, "only per-recipient replies after the result"), c.P.InstrPos(in), len(v) == 0, d)
+			})
+		}
+		R.Ob("(*Conn).handleBdat/receives the delivery result", c.P.Pos(f0.Pos()), nRecv >= 1, "no receive from Conn.dataResult")
+	}
 	ruleGoCapture(c)
 }
 
